@@ -89,6 +89,24 @@ def bias_world(r, W, anp):
             W['netpols'].append({'ns': w['ns'], 'name': 'namedip', 'podSelector': sel, 'policyTypes': pt,
                                  'egress': [{'to': [{'ipBlock': {'cidr': '10.0.0.0/8'}}], 'ports': [{'port': 80}, {'port': 'http'}]},
                                             {'to': [{'ipBlock': {'cidr': '10.0.0.0/8'}}]}]})
+    if not anp and r.random() < 0.2 and W['workloads']:
+        # two policies open ports to the whole cluster, one for every workload of the namespace and one for a single workload: what the
+        # second adds must stay with that workload whichever policy the map yields first (no set may be shared between them)
+        w = r.choice(W['workloads'])
+        if not w['labels']:
+            w['labels'] = {'app': 'only'}
+        for w_ in W['workloads']:
+            if w_ is not w and w_['ns'] == w['ns'] and all(w_['labels'].get(k_) == v_ for k_, v_ in w['labels'].items()):
+                w_['labels'] = {'app': 'other'}
+        if not any(w_ is not w and w_['ns'] == w['ns'] for w_ in W['workloads']):
+            W['workloads'].append({'kind': 'Deployment', 'ns': w['ns'], 'name': 'wextra', 'labels': {'app': 'extra'}, 'ports': [], 'replicas': 1, 'owner': None, 'omit_ns': False})
+        d = r.choice(['ingress', 'egress'])
+        key = 'from' if d == 'ingress' else 'to'
+        pt = ['Ingress' if d == 'ingress' else 'Egress']
+        W['netpols'] = [p_ for p_ in W['netpols'] if (p_['ns'] or 'default') != w['ns']]
+        W['netpols'].append({'ns': w['ns'], 'name': 'wide-all', 'podSelector': {}, 'policyTypes': pt, d: [{key: [{'namespaceSelector': {}}], 'ports': [{'protocol': 'TCP', 'port': 8080}]}]})
+        W['netpols'].append({'ns': w['ns'], 'name': 'wide-one', 'podSelector': {'matchLabels': dict(w['labels'])}, 'policyTypes': pt,
+                             d: [{key: [{'namespaceSelector': {}}], 'ports': [{'protocol': 'TCP', 'port': 9090}]}]})
     if r.random() < 0.3:
         # a Route and an Ingress that certainly yield {ingress-controller} lines: own namespace without policies
         W['workloads'].append({'kind': 'Deployment', 'ns': 'nsr', 'name': 'wr', 'labels': {'app': 'r'}, 'replicas': 1, 'owner': None, 'omit_ns': False,
